@@ -1342,7 +1342,11 @@ pub unsafe extern "C" fn clock_gettime(clk: libc::clockid_t, ts: *mut libc::time
                         }
                     }
                     c.real_ns += jump;
-                    c.sim_ns_advanced += jump.abs() + step.abs();
+                    // simulated time covered = what the clock ticked; jumps are skew, not time
+                    c.sim_ns_advanced += step.abs();
+                    if jump != 0 {
+                        *c.counts.entry("clock_jump").or_insert(0) += 1;
+                    }
                     let v = c.real_ns;
                     c.real_ns += step;
                     v
